@@ -213,3 +213,9 @@ def run(ctx):
     ctx.streams += ["tokenize-core", "tokenize-full"]
     core.corr_run(ctx, "tokcore", pre, "runtok", "tokout_eqb", cases, shard=500)
     core.corr_run(ctx, "tokfull", pre, "runtok", "tokout_eqb", cases_full, shard=60)
+    # the model computing candidates and the token stream from the text alone (Model/Extract.v, Model/E2E.v)
+    from harness import e2e
+    th = ctx.tier == "thorough"
+    docs = e2e.short_docs(ctx.rng, 60 if th else 8)
+    e2e.run_extract(ctx, docs, 20 if th else 3)
+    e2e.run_tokens(ctx, docs)
